@@ -55,6 +55,45 @@ def run_units():
     return out
 
 
+def run_freshbuffer_unit():
+    """snapshots share the builder's buffer: clear() must leave the old buffer to them and continue in a FRESH one, on
+    every path (an unconditional top-level `ptr_ = kernel::malloc<T>(...)` in GrowableBuffer<T>::clear).  Syntactic."""
+    res = {"unit": "GrowableBuffer<int64_t>::clear (fresh buffer)", "obligations": [], "errors": []}
+    try:
+        r = cast.extract_class_methods(GB, "GrowableBuffer", ["i64"])
+        ms = r["methods"].get("clear")
+        if not ms or ms[0].get("body") is None:
+            res["errors"].append("GrowableBuffer::clear not found / not translatable")
+            return [res]
+        body = ms[0]["body"]
+
+        def has_malloc(e):
+            if isinstance(e, list):
+                if e and e[0] == "call" and e[1] == "malloc":
+                    return True
+                return any(has_malloc(x) for x in e)
+            return False
+        fresh_locals = {st[1] for st in body if st[0] == "decl" and st[3] is not None and has_malloc(st[3])}
+        ok = False
+        for st in body:          # top-level statements only: not under an `if`, not in a loop
+            if st[0] != "expr":
+                continue
+            e = st[1]
+            if e[0] == "opcall" and e[1] == "operator=" and e[2] and e[2][0][:2] == ["v", "ptr_"]:
+                rhs = e[2][1]
+                if has_malloc(rhs) or (rhs[0] == "v" and rhs[1] in fresh_locals):
+                    ok = True
+        res["obligations"].append({"id": "GrowableBuffer.cpp:clear:B.freshbuffer#0", "unit": res["unit"], "kind": "B.freshbuffer",
+                                   "label": "clear", "line": ms[0].get("line"),
+                                   "desc": "GrowableBuffer::clear continues in a freshly allocated buffer on every path (earlier snapshots keep the old one)",
+                                   "status": "proved" if ok else "refuted", "time": 0.0, "backend": "syntactic",
+                                   "model": None if ok else "no unconditional `ptr_ = kernel::malloc<T>(...)` at the top level of clear()", "auto": False})
+    except Exception:
+        import traceback
+        res["errors"].append("crash: " + traceback.format_exc()[-1200:])
+    return [res]
+
+
 def run_discipline_units():
     """snapshot sharing relies on an append-only discipline: a GrowableBuffer that is a data member of a builder
     (and may therefore be shared with earlier snapshots) is only ever modified through append() and clear()
@@ -275,7 +314,7 @@ def run_list_units():
 
 
 def engine(pid, tier, seed, known):
-    res = run_units() + run_discipline_units() + run_option_units() + run_list_units()
+    res = run_units() + run_freshbuffer_unit() + run_discipline_units() + run_option_units() + run_list_units()
     out = {"obligations": [], "functions": {}, "errors": [], "notes": [], "bounded": [], "coverage": {"builder_units": len(res)}}
     for r in res:
         out["functions"][r["unit"]] = {"obligations": len(r["obligations"]), "exits": r.get("exits")}
